@@ -266,7 +266,7 @@ def _correspondence(ctx):
         c["n"] = 3
     ctx.run_cases(OPS["roundtrip"], rich)
     ctx.run_cases(OPS["save_doc"], _doc_cases(rich))
-    n = ctx.budget(40, 300)
+    n = ctx.budget(40, 1500)
     cases = _gen_cases(ctx, ctx.rng, n)
     ctx.run_cases(OPS["roundtrip"], cases)
     ctx.run_cases(OPS["save_doc"], _doc_cases(cases))
